@@ -197,6 +197,7 @@ class Exec:
         self.objlist_fields = {}
         self.alias_paths = {}
         self.old_stack = []
+        self.root_env = {}
 
     # ------------------------------------------------------------------ basics
     def alloc(self, obj):
@@ -222,7 +223,8 @@ class Exec:
         self.ctx.stats["feasibility_checks"] += 1
         s = z3.Solver()
         s.set("timeout", self.ctx.solver_timeout_ms)
-        s.add(*self.pc)
+        # quantified facts are left out: pruning only needs an over-approximation of feasibility
+        s.add(*[p for p in self.pc if not _has_quantifier(p)])
         s.add(c)
         return s.check() != z3.unsat
 
@@ -330,7 +332,16 @@ class Exec:
             ln = z3.Int(name + "!len")
             self.inputs[name + "!len"] = ln
             self.pc.append(ln >= 0)
-            return self.alloc(HObjList(cn, cf, ln, name, pair=(m.group(1) == "pairlist")))
+            ref = self.alloc(HObjList(cn, cf, ln, name, pair=(m.group(1) == "pairlist")))
+            lst = self.heap[ref.oid]
+            # field arrays are created eagerly so that every snapshot (old()) sees the same initial arrays
+            for c in cf.mro:
+                for attr, t in self.contract.class_fields.get(c.name, {}).items():
+                    if (t in self.SORTS or t in TYPE_TAGS or t in ("opaque", "exception")) and attr not in lst.fields:
+                        self.elem_field_array(lst, attr)
+            if lst.pair:
+                self.elem_field_array(lst, "__memo__")
+            return ref
         if typ.startswith("rec["):
             items = {}
             for part in _split_top(typ[4:-1]):
@@ -385,7 +396,7 @@ class Exec:
                 lk = self.facts.lookup(cf, attr)
                 extra = self.contract.extra_attrs.get(cf.name, [])
                 if lk is None and attr not in extra:
-                    if self.spec_mode:
+                    if self.spec_mode and not self.effect_mode:
                         raise OutsideSubset(f"spec reads missing attribute {path}")
                     raise PyRaise("AttributeError", f"{cf.name}.{attr}")
                 if lk and lk[0] == "classattr":
@@ -424,6 +435,16 @@ class Exec:
 
     def elem_get(self, er, attr):
         lst = self.heap[er.oid]
+        names = [c.name for c in lst.cf.mro] if lst.cf is not None else [lst.clsname]
+        for nm in names:
+            tgt = self.contract.backrefs.get(f"{nm}.{attr}")
+            if tgt is not None:
+                saved = (self.locals, self.spec_mode)
+                self.locals, self.spec_mode = self.root_env, True
+                try:
+                    return self.eval(ast.parse(path_expr(tgt), mode="eval").body)
+                finally:
+                    self.locals, self.spec_mode = saved
         fa = self.elem_field_array(lst, attr)
         if fa is None:
             return None
@@ -478,6 +499,7 @@ class Exec:
             self._mirror_into_old(path, v)
 
     spec_mode_old = False
+    effect_mode = False
 
     def _mirror_into_old(self, path, v):
         # a lazily created input has the same initial value in every snapshot taken so far
@@ -619,7 +641,7 @@ class Exec:
             v = self.elem_get(base, attr)
             if v is None:
                 if lst.cf is not None and self.facts.lookup(lst.cf, attr) is None and attr not in self.contract.extra_attrs.get(lst.cf.name, []):
-                    if self.spec_mode:
+                    if self.spec_mode and not self.effect_mode:
                         raise OutsideSubset(f"spec reads missing attribute {attr}")
                     raise PyRaise("AttributeError", f"{lst.clsname}.{attr}")
                 raise OutsideSubset(f"no declared type for field {attr} of {lst.clsname} list elements")
@@ -965,7 +987,9 @@ class Exec:
                 raise OutsideSubset("object list index type")
             i = ops.as_int(idx)
             self.maybe_raise(z3.Or(i >= o.length, i < -o.length), "IndexError", "list index")
-            return ElemRef(base.oid, self.norm_index(idx, o.length), "pair" if o.pair else "obj")
+            # specifications index from the front only: no negative-index normalisation (keeps array reads usable as triggers)
+            ni = i if self.spec_mode else self.norm_index(idx, o.length)
+            return ElemRef(base.oid, ni, "pair" if o.pair else "obj")
         if isinstance(base, Ref):
             o = self.heap[base.oid]
             if isinstance(o, HTuple):
@@ -999,7 +1023,7 @@ class Exec:
                 ln = z3.Length(o.seq)
                 i = ops.as_int(idx)
                 self.maybe_raise(z3.Or(i >= ln, i < -ln), "IndexError", "list index")
-                return ops.elem_sv(o.elem, o.seq[self.norm_index(idx, ln)])
+                return ops.elem_sv(o.elem, o.seq[i if self.spec_mode else self.norm_index(idx, ln)])
             if isinstance(o, HRec):
                 key = self.const_str(idx)
                 if key is None:
@@ -1074,6 +1098,22 @@ class Exec:
         return self.apply(f, args, kw, n)
 
     def eval_for_effect(self, node):
+        saved = (self.spec_mode, self.effect_mode)
+        # arguments of dropped calls are evaluated without forking (conditional expressions become ite);
+        # a missing attribute in them is still an AttributeError path
+        self.spec_mode, self.effect_mode = True, True
+        try:
+            self.eval(node)
+        except OutsideSubset:
+            self.spec_mode, self.effect_mode = saved
+            try:
+                self.eval(node)
+            except OutsideSubset:
+                self.notes.append(f"dropped-call argument not modelled at line {getattr(node, 'lineno', '?')}")
+        finally:
+            self.spec_mode, self.effect_mode = saved
+
+    def _unused_eval_for_effect(self, node):
         try:
             self.eval(node)
         except OutsideSubset:
@@ -1540,6 +1580,9 @@ class Exec:
                     lo, hi = ops.as_int(self.eval(n.args[0])), ops.as_int(self.eval(n.args[1]))
                     rng = z3.And([z3.And(c >= lo, c < hi) for c in consts])
                     body = z3.Implies(rng, body) if nm.startswith("forall") else z3.And(rng, body)
+                pats = infer_patterns(consts, body)
+                if pats:
+                    return B(z3.ForAll(consts, body, patterns=pats) if nm.startswith("forall") else z3.Exists(consts, body, patterns=pats))
                 return B(z3.ForAll(consts, body) if nm.startswith("forall") else z3.Exists(consts, body))
             if nm == "unchanged":
                 conj = []
@@ -1917,11 +1960,12 @@ class Exec:
             var = s.target.id
             # ghost: loop variable itself is the index; invariant speaks about `var` as "next value to take"
             return self.cut_loop(key, s, kind="range", var=var, lo=lo_t, hi=hi_t, idx_name=idx_name)
-        seqv = self.eval(it)
         enum = False
         if isinstance(it, ast.Call) and isinstance(it.func, ast.Name) and it.func.id == "enumerate":
             seqv = self.eval(it.args[0])
             enum = True
+        else:
+            seqv = self.eval(it)
         if isinstance(seqv, Ref):
             o = self.heap[seqv.oid]
             if isinstance(o, HTuple):
@@ -2053,6 +2097,9 @@ class Exec:
             try:
                 cur = self.eval(_as_load(e))
             except PyRaise:
+                continue
+            except OutsideSubset:
+                # a write through a name bound only inside the loop (e.g. the loop variable): covered by loop_havoc declarations
                 continue
             if isinstance(e, ast.Attribute) and isinstance(cur, SV):
                 base = self.eval(e.value)
@@ -2271,7 +2318,71 @@ def _merged_types(outer: Contract, inner: Contract):
     m.class_fields = cf
     m.inline = list(outer.inline)
     m.opaque = list(outer.opaque)
+    m.backrefs = dict(outer.backrefs)
     return m
+
+
+_QCACHE = {}
+
+
+def _has_quantifier(e):
+    k = e.get_id()
+    r = _QCACHE.get(k)
+    if r is not None:
+        return r
+    seen, stack, found = set(), [e], False
+    while stack:
+        t = stack.pop()
+        if t.get_id() in seen:
+            continue
+        seen.add(t.get_id())
+        if z3.is_quantifier(t):
+            found = True
+            break
+        stack.extend(t.children())
+    _QCACHE[k] = found
+    return found
+
+
+def infer_patterns(consts, body):
+    """single-term triggers: array reads / uninterpreted applications / seq.nth whose arguments mention a bound variable directly"""
+    ids = {c.get_id() for c in consts}
+    pats, seen, stack = [], set(), [body]
+    while stack:
+        t = stack.pop()
+        if t.get_id() in seen or not z3.is_app(t):
+            continue
+        seen.add(t.get_id())
+        k = t.decl().kind()
+        if k in (z3.Z3_OP_SELECT, z3.Z3_OP_UNINTERPRETED, z3.Z3_OP_SEQ_NTH) and t.num_args() > 0:
+            if any(a.get_id() in ids for a in t.children()) and all(_mentions_only(a, ids) for a in t.children()):
+                vars_here = {a.get_id() for a in t.children() if a.get_id() in ids}
+                if vars_here == ids or len(ids) == 1:
+                    pats.append(t)
+        stack.extend(t.children())
+    # de-duplicate, keep a handful
+    out, keys = [], set()
+    for p_ in pats:
+        if p_.get_id() not in keys:
+            keys.add(p_.get_id())
+            out.append(p_)
+    return out[:6]
+
+
+def _mentions_only(a, ids):
+    """argument is either a bound variable itself or does not mention any bound variable"""
+    if a.get_id() in ids:
+        return True
+    stack, seen = [a], set()
+    while stack:
+        t = stack.pop()
+        if t.get_id() in seen:
+            continue
+        seen.add(t.get_id())
+        if t.get_id() in ids:
+            return False
+        stack.extend(t.children())
+    return True
 
 
 def path_expr(path):
